@@ -78,6 +78,7 @@ class Ctx:
         self.step_cap = 200000
         self.clock_ticks = 0
         self.mtime_clock = 0.0
+        self._ncpu = None               # simulated machine size, drawn when the package first asks for it
 
     # ------------------------------------------------------------------ logging
     def rel(self, p):
@@ -124,6 +125,7 @@ class Ctx:
         for p in list(self.pools):
             p._shutdown()
         self.pools = []
+        self._ncpu = None
         if not keep_pathos_cache:
             from .forkpool import pathos_clear
             pathos_clear(self)
@@ -206,7 +208,7 @@ def install_audit():
 
 FAULT_KINDS = {
     "open": ["EACCES", "ENOSPC", "EMFILE", "CRASH"],
-    "write": ["EIO", "ENOSPC", "TORN", "SHORT", "CRASH"],
+    "write": ["EIO", "ENOSPC", "TORN", "SHORT", "DEFER", "CRASH"],
     "close": ["EIO"],
     "mkdir": ["ENOSPC", "EACCES"],
 }
@@ -223,7 +225,7 @@ class SimDeadlock(BaseException):
 class SimCrash(BaseException):
     """The process is killed at this point (not an Exception: ordinary handlers do not see it)."""
 _ERRNO = {"EACCES": errno.EACCES, "ENOSPC": errno.ENOSPC, "EMFILE": errno.EMFILE,
-          "EIO": errno.EIO, "TORN": errno.ENOSPC, "SHORT": errno.ENOSPC, "CRASH": 0}
+          "EIO": errno.EIO, "TORN": errno.ENOSPC, "SHORT": errno.ENOSPC, "DEFER": errno.ENOSPC, "CRASH": 0}
 
 
 def _site(ctx, kind, path):
@@ -248,7 +250,7 @@ def _site(ctx, kind, path):
         ctx.stats[f"fault.{kind}.{fk}"] += 1
         ctx.ev("fault", idx, kind, fk, rp, ctx.actor)
         if ctx.fault_sticky:
-            if fk in ("ENOSPC", "TORN", "SHORT"):
+            if fk in ("ENOSPC", "TORN", "SHORT", "DEFER"):
                 ctx.sticky_all = True
             elif ap:
                 ctx.sticky_paths.add(ap)
@@ -270,12 +272,35 @@ class WriteProxy:
         self._path = path
         self._ctx = ctx
         self._closed_fault = False
+        self._pending = False
 
     # -- fault points
+    def _raise_pending(self):
+        """A write the buffer had accepted could not reach the disk: the error belongs to the flush/close
+        that tries to write it out (and to nobody when the file object is merely dropped)."""
+        if self._pending:
+            self._pending = False
+            _raise("ENOSPC", self._path)
+
+    def flush(self):
+        self._raise_pending()
+        return self._f.flush()
+
     def write(self, data):
         ctx = self._ctx
+        if self._pending:
+            return len(data)            # still only buffered; nothing reaches the disk any more
         if ctx is CUR and ctx.inject:
             fk = _site(ctx, "write", self._path)
+            if fk == "DEFER":
+                # buffered file objects accept the data and fail later, at the flush or close that writes the
+                # buffer out - and silently if that happens in the finaliser of an object nobody closed.
+                # An unbuffered file has no "later": the error is raised here.
+                if isinstance(self._f, io.RawIOBase):
+                    _raise("ENOSPC", self._path)
+                self._pending = True
+                ctx.stats["fault.deferred_to_close"] += 1
+                return len(data)
             if fk == "TORN":
                 n = len(data) // 2
                 mv = memoryview(data)[:n] if not isinstance(data, str) else data[:n]
@@ -306,6 +331,7 @@ class WriteProxy:
         if self._f.closed:
             return
         self._f.close()
+        self._raise_pending()
         if ctx is CUR and ctx.inject:
             fk = _site(ctx, "close", self._path)
             if fk is not None:
@@ -393,6 +419,29 @@ def _sim_listdir(path="."):
     return out
 
 
+_REAL_CPU_COUNT = os.cpu_count
+
+
+def _sim_cpu_count():
+    """os.cpu_count() / multiprocessing.cpu_count() as seen by the package under test: the size of the
+    simulated machine, drawn once per execution (everybody else gets the real answer)."""
+    ctx = CUR
+    if ctx is None or not ctx.recording:
+        return _REAL_CPU_COUNT()
+    try:
+        caller = sys._getframe(1).f_globals.get("__name__", "")
+    except ValueError:
+        caller = ""
+    if not (caller == "amr_kitchen" or caller.startswith("amr_kitchen.")):
+        return _REAL_CPU_COUNT()
+    if ctx._ncpu is None:
+        src = ctx.pool_src if ctx.pool_src is not None else ctx.src
+        ctx._ncpu = [1, 2, 3, 4, 7, 16][src.draw("machine.ncpu", 0, 5)]
+        ctx.ev("ncpu", ctx._ncpu)
+        ctx.probe("cpu_count_asked")
+    return ctx._ncpu
+
+
 def _sim_time():
     """Simulated wall clock: a fixed epoch plus one microsecond per reading, so that elapsed times are
     small, positive and reproducible (archive member timestamps, which have 2 s resolution, never move)."""
@@ -434,6 +483,9 @@ def install_seams():
     os.mkdir = _sim_mkdir
     os.listdir = _sim_listdir
     _time.time = _sim_time
+    import multiprocessing
+    os.cpu_count = _sim_cpu_count
+    multiprocessing.cpu_count = _sim_cpu_count
 
 
 class tool_env:
